@@ -166,12 +166,17 @@ func genResOf(r *Rng, st stype, o *Out) jsonapi.Resource {
 		}
 	}
 	var res jsonapi.Resource
+	id := mStrPool[1+r.IntN(len(mStrPool)-1)]
+	if st.backed && r.bool() {
+		o.stat("res.struct-literal")
+		return newWrappedLiteral(typ, id, vals)
+	}
 	if st.backed {
 		res = newWrapped(typ)
 	} else {
 		res = newSoft(typ)
 	}
-	fill(res, mStrPool[1+r.IntN(len(mStrPool)-1)], vals)
+	fill(res, id, vals)
 	return res
 }
 
